@@ -358,13 +358,16 @@ def stop_phase(ctx):
         ctx.violation("munged does not build: " + err[-300:], {"obligation": "build (stop phase)"}, found_input=False)
         return
     limit = 2.0
+    done_modes = set()
     try:
         import re as _re
         limit = int(_re.search(r"c_socket_timeout_msecs : N := (\d+)", open(os.path.join(vlib.COQ, "gen", "GenStop.v")).read()).group(1)) / 1000.0
     except Exception:
         pass
     slow = 0.9 * limit
-    for attempt in range(3):
+    for mode, attempt in [("stopcmd", a) for a in range(3)] + [("signals", a) for a in range(3)]:
+        if mode in done_modes:
+            continue
         d = rig.Daemon(ctx, exe, tag="stop", nthreads=2)
         if not d.start():
             ctx.violation("munged does not start (stop phase)", {"obligation": "start"}, found_input=False)
@@ -381,10 +384,28 @@ def stop_phase(ctx):
         # reap the daemon as soon as it exits (a zombie still answers kill(pid, 0), which `munged --stop` polls)
         reaper = threading.Thread(target=d.p.wait, daemon=True)
         reaper.start()
-        stop = subprocess.Popen([exe, "--stop", "-S", d.sock], stdout=subprocess.PIPE, stderr=subprocess.STDOUT, text=True)
+        if mode == "stopcmd":
+            stop = subprocess.Popen([exe, "--stop", "-S", d.sock], stdout=subprocess.PIPE, stderr=subprocess.STDOUT, text=True)
+        else:
+            # the stop request repeated while the drain is in progress (an impatient init system, Ctrl-C twice): SIGTERM, then
+            # SIGTERM and SIGINT again: each only asks for what is already under way
+            import signal as _sg
+            stop = subprocess.Popen(["true"], stdout=subprocess.PIPE, stderr=subprocess.STDOUT, text=True)
+
+            def _again(p=d.p):
+                for k, sg in enumerate((_sg.SIGTERM, _sg.SIGTERM, _sg.SIGINT, _sg.SIGTERM)):
+                    try:
+                        p.send_signal(sg)
+                    except Exception:
+                        return
+                    time.sleep(0.25)
+            threading.Thread(target=_again, daemon=True).start()
         t_stop = time.time()
         time.sleep(max(0.0, slow - (time.time() - t0)))
-        s.sendall(raw[4096:])
+        try:
+            s.sendall(raw[4096:])
+        except OSError:
+            pass                                     # the daemon is gone: the evaluation below sees its exit status
         t_sent = time.time()
         got = b""
         want_len = None
@@ -427,7 +448,17 @@ def stop_phase(ctx):
         ctx.log("stop phase: request delivered in %.2f s, reply read in %.2f s (%s of %s bytes), daemon exit %s, stop says %r"
                 % (send_time, read_time, len(got), want_len, rc, (out or "").strip()[:80]))
         if complete and rc == 0:
-            return
+            done_modes.add(mode)
+            continue
+        if mode == "signals" and within and not complete and rc is not None and rc != 0:
+            ctx.violation("a stop request repeated during the graceful drain (SIGTERM, SIGTERM, SIGINT, 0.25 s apart) ended munged (exit status %s) "
+                          "while a request accepted before the stop was still being served inside the daemon's own I/O limits (request "
+                          "delivered in %.2f s, reply being read for %.2f s, limit %.1f s each): the client received %d of %s reply bytes"
+                          % (rc, send_time, read_time, limit, len(got), want_len),
+                          {"scenario": "1 MB encode request sent over %.2f s; SIGTERM x2, SIGINT, SIGTERM from 0.05 s after its first bytes; reply "
+                                       "read over %.2f s" % (slow, slow), "daemon_exit": rc})
+            done_modes.add(mode)
+            continue
         if rc == -9 and within and not complete:
             ctx.violation("`munged --stop` killed the daemon (SIGKILL, %.1f s after the stop was issued) while a request accepted before the stop "
                           "was still being served inside the daemon's own I/O limits (request delivered in %.2f s, reply being read for %.2f s, "
@@ -435,9 +466,12 @@ def stop_phase(ctx):
                           % (t_done - t_stop, send_time, read_time, limit, len(got), want_len),
                           {"scenario": "700 KiB encode request sent over %.2f s, `munged --stop` 0.15 s after its first bytes, reply read over %.2f s"
                                        % (slow, slow), "stop_output": (out or "")[-300:], "daemon_exit": rc})
-            return
+            done_modes.add(mode)
+            continue
         # the client overran a limit itself (or the daemon dropped it for another reason): inconclusive, try again
-    ctx.notes.append("stop phase inconclusive in 3 attempts (client could not keep inside the I/O limits on this machine)")
+    for mode in ("stopcmd", "signals"):
+        if mode not in done_modes:
+            ctx.notes.append("stop phase (%s) inconclusive in 3 attempts (client could not keep inside the I/O limits on this machine)" % mode)
 
 
 def run(ctx):
